@@ -15,15 +15,33 @@ type Z = BigRef;
 /// signed decimal for Display/Debug, the two's-complement pattern for the radix forms,
 /// d.ddde<k> with trailing zeros trimmed for the exponent forms.
 pub struct Wide {
-    pub z: Z,
-    pub ti: TypeInfo,
+    nonneg: bool,
+    dec: String,
+    bin: String,
+    oct: String,
+    hex: String,
+    hex_upper: String,
+    exp_lower: String,
+    exp_upper: String,
 }
 impl Wide {
-    fn pattern(&self) -> Z {
-        self.z.mod_pow2(self.ti.bits as u64)
+    /// the eight numerals of one value, computed once (the model's radix conversion is the costly part)
+    pub fn new(z: &Z, ti: TypeInfo) -> Wide {
+        let pattern = z.mod_pow2(ti.bits as u64);
+        let dec = z.abs().to_str_radix(10);
+        let hex = pattern.to_str_radix(16);
+        Wide {
+            nonneg: !z.is_neg(),
+            bin: pattern.to_str_radix(2),
+            oct: pattern.to_str_radix(8),
+            hex_upper: hex.to_uppercase(),
+            hex,
+            exp_lower: Self::exp_body(&dec, 'e'),
+            exp_upper: Self::exp_body(&dec, 'E'),
+            dec,
+        }
     }
-    fn exp_body(&self, e: char) -> String {
-        let dec = self.z.abs().to_str_radix(10);
+    fn exp_body(dec: &str, e: char) -> String {
         if dec == "0" {
             return format!("0{}0", e);
         }
@@ -38,7 +56,7 @@ impl Wide {
 }
 impl fmt::Display for Wide {
     fn fmt(&self, f: &mut fmt::Formatter) -> fmt::Result {
-        f.pad_integral(!self.z.is_neg(), "", &self.z.abs().to_str_radix(10))
+        f.pad_integral(self.nonneg, "", &self.dec)
     }
 }
 impl fmt::Debug for Wide {
@@ -48,37 +66,40 @@ impl fmt::Debug for Wide {
 }
 impl fmt::Binary for Wide {
     fn fmt(&self, f: &mut fmt::Formatter) -> fmt::Result {
-        f.pad_integral(true, "0b", &self.pattern().to_str_radix(2))
+        f.pad_integral(true, "0b", &self.bin)
     }
 }
 impl fmt::Octal for Wide {
     fn fmt(&self, f: &mut fmt::Formatter) -> fmt::Result {
-        f.pad_integral(true, "0o", &self.pattern().to_str_radix(8))
+        f.pad_integral(true, "0o", &self.oct)
     }
 }
 impl fmt::LowerHex for Wide {
     fn fmt(&self, f: &mut fmt::Formatter) -> fmt::Result {
-        f.pad_integral(true, "0x", &self.pattern().to_str_radix(16))
+        f.pad_integral(true, "0x", &self.hex)
     }
 }
 impl fmt::UpperHex for Wide {
     fn fmt(&self, f: &mut fmt::Formatter) -> fmt::Result {
-        f.pad_integral(true, "0x", &self.pattern().to_str_radix(16).to_uppercase())
+        f.pad_integral(true, "0x", &self.hex_upper)
     }
 }
 impl fmt::LowerExp for Wide {
     fn fmt(&self, f: &mut fmt::Formatter) -> fmt::Result {
-        f.pad_integral(!self.z.is_neg(), "", &self.exp_body('e'))
+        f.pad_integral(self.nonneg, "", &self.exp_lower)
     }
 }
 impl fmt::UpperExp for Wide {
     fn fmt(&self, f: &mut fmt::Formatter) -> fmt::Result {
-        f.pad_integral(!self.z.is_neg(), "", &self.exp_body('E'))
+        f.pad_integral(self.nonneg, "", &self.exp_upper)
     }
 }
 
 /// the oracle string
-fn expected(z: &Z, ti: TypeInfo, tr: usize, combo: usize, w: usize) -> String {
+fn expected(z: &Z, ti: TypeInfo, wide: Option<&Wide>, tr: usize, combo: usize, w: usize) -> String {
+    if let Some(wd) = wide {
+        return fmt_one(wd, tr, combo, w);
+    }
     if ti.bits <= 128 {
         // the primitive holding the same value; radix forms print the BITS-bit pattern
         if tr >= 2 && tr <= 5 {
@@ -90,7 +111,7 @@ fn expected(z: &Z, ti: TypeInfo, tr: usize, combo: usize, w: usize) -> String {
             fmt_one(&z.to_u128().unwrap(), tr, combo, w)
         }
     } else {
-        fmt_one(&Wide { z: z.clone(), ti }, tr, combo, w)
+        fmt_one(&Wide::new(z, ti), tr, combo, w)
     }
 }
 
@@ -106,8 +127,8 @@ pub fn wide_selfcheck() -> Result<u64, String> {
             for tr in 0..8 {
                 for combo in 0..N_COMBOS {
                     for w in [0usize, 1, 5, 12, 40, 140] {
-                        let a = fmt_one(&Wide { z: z.clone(), ti }, tr, combo, w);
-                        let b = expected(&z, ti, tr, combo, w);
+                        let a = fmt_one(&Wide::new(&z, ti), tr, combo, w);
+                        let b = expected(&z, ti, None, tr, combo, w);
                         n += 1;
                         if a != b {
                             return Err(format!("wide-format oracle disagrees with primitive: value {} {} {} width {}: {:?} vs {:?}", z, TRAITS[tr], combo_spec(tr, combo), w, a, b));
@@ -120,10 +141,10 @@ pub fn wide_selfcheck() -> Result<u64, String> {
     Ok(n)
 }
 
-fn one<T: StrApi>(config: &str, x: &T, zx: &Z, tr: usize, combo: usize, w: usize, l: &mut Local) {
+fn one<T: StrApi>(config: &str, x: &T, zx: &Z, wide: Option<&Wide>, tr: usize, combo: usize, w: usize, l: &mut Local) {
     let ti = T::ti();
     l.enter(config, TRAITS[tr], || vec![vengine::hex(&x.le()), combo_spec(tr, combo), w.to_string()], (combo as u64) << 32 | w as u64);
-    let e: Expect<Z> = Expect::Is(Obs::S(expected(zx, ti, tr, combo, w)));
+    let e: Expect<Z> = Expect::Is(Obs::S(expected(zx, ti, wide, tr, combo, w)));
     let o = match std::panic::catch_unwind(std::panic::AssertUnwindSafe(|| Obs::S(fmt_one(x, tr, combo, w)))) {
         Ok(o) => o,
         Err(_) => Obs::Panic,
@@ -140,7 +161,7 @@ pub fn fmt_check<T: StrApi>(run: &mut Run) {
             let combo = (aux >> 32) as usize;
             let w = (aux & 0xffff_ffff) as usize;
             let mut l = Local::default();
-            one::<T>(&config, &x, &x.z::<Z>(), tr, combo, w, &mut l);
+            one::<T>(&config, &x, &x.z::<Z>(), None, tr, combo, w, &mut l);
             println!("replay {} {} {} {} width {}", config, TRAITS[tr], st[0], combo_spec(tr, combo), w);
             match l.viols.first() {
                 Some(v) => println!("  expected: {}\n  observed: {}\nREPRODUCED", v.expected, v.observed),
@@ -196,6 +217,7 @@ pub fn fmt_check<T: StrApi>(run: &mut Run) {
     let l = par_chunks(run.threads, xs.len(), |lo, hi, l| {
         for x in &xs[lo..hi] {
             let zx = x.z::<Z>();
+            let wide = if bits > 128 { Some(Wide::new(&zx, T::ti())) } else { None };
             // widths around the length of the numerals of this value
             let dec_len = zx.abs().to_str_radix(10).len();
             let hex_len = zx.mod_pow2(bits as u64).to_str_radix(16).len();
@@ -210,7 +232,7 @@ pub fn fmt_check<T: StrApi>(run: &mut Run) {
             for tr in 0..8 {
                 for combo in 0..N_COMBOS {
                     for &w in &widths {
-                        one::<T>(&cfg, x, &zx, tr, combo, w, l);
+                        one::<T>(&cfg, x, &zx, wide.as_ref(), tr, combo, w, l);
                     }
                 }
             }
